@@ -169,6 +169,7 @@ func run(c *vkit.Collector, rng *vkit.Rng, budget int) {
 	}
 	corrSubsample(c, rng, budget)
 	corrSubsampleClamp(c, rng, budget)
+	corrSubsampleUlps(c, rng, budget)
 	corrSnap(c, rng, budget)
 	if wrapOK {
 		searchTessellation(c, rng, budget, o)
@@ -406,6 +407,16 @@ func corrSubsampleClamp(c *vkit.Collector, rng *vkit.Rng, budget int) {
 			c.Violate("Polyline.SubsampleVertices.clamp", fmt.Sprintf("tolerance %g gives %v, tolerance 0 gives %v", tol, idx, idx0), map[string]interface{}{"polyline": pl, "tolerance": fmt.Sprint(tol)})
 		}
 		c.Check(fmt.Sprintf("SubsampleVertices(clamp) tol=%g #%d", tol, k), someEq("Z.eqb", vkit.App("SubsampleVertices", ptList(pl), vkit.F(tol)), zList(idx)))
+	}
+}
+
+// [T] on polylines with steps of a few ulps (Go's != keeps such a vertex, ApproxEqual would not)
+func corrSubsampleUlps(c *vkit.Collector, rng *vkit.Rng, budget int) {
+	for k := 0; k < 40*budget; k++ {
+		pl, tol := ulpPolyline(rng, c)
+		idx := pl.SubsampleVertices(s1.Angle(tol))
+		c.Eval(fmt.Sprintf("subulp:%d:%g:%d", len(pl), tol, k), true)
+		c.Check(fmt.Sprintf("SubsampleVertices(ulp steps) n=%d tol=%g #%d", len(pl), tol, k), someEq("Z.eqb", vkit.App("SubsampleVertices", ptList(pl), vkit.F(tol)), zList(idx)))
 	}
 }
 
